@@ -181,14 +181,14 @@ PLAN = {
              "`window_assigned` of the contract proved in pdi_config; ESC hardware semantics assumed",
     ),
     "C09": dict(
-        verus=["init_addr", "state_wait", "eeprom_device", "reset_seq"], kani=["eeprom_alias", "groups"], assumptions=['the devices are not modelled: register writes and reads are observed through uninterpreted predicates', "SubDevice::new's front part (wait for INIT, EEPROM ownership, identity, name) is cut off the fragment"], level="proof",
+        verus=["init_addr", "state_wait", "eeprom_device", "reset_seq"], kani=["eeprom_alias", "groups"], assumptions=['the devices are not modelled: register writes and reads are observed through uninterpreted predicates', "SubDevice::new is verified as two fragments (head: unit state_wait, tail: unit init_addr); the statements between them (name lookup from the EEPROM strings: C12) are not part of either", 'reset_subdevices sees blank_memory through the contract proved in unit group_cycle; the ORDER of its writes is not decided'], level="proof",
         claim="the two per-position loops of MainDevice::init, verbatim fragments (Verus, any n): Ok => the device at EVERY ring position i < n was sent "
               "APWR(auto-increment address 0-i, register 0x0010) <- 0x1000+i, the addresses are pairwise distinct; then exactly n SubDevice::new(i, 0x1000+i) "
               "in ring order are stored; n > MAX_SUBDEVICES is Err(Capacity) - never a panic or a silent truncation; Command::apwr negates the position; ORDER: every "
               "position has been addressed before any device is read out through its station address (contract written for the split and for the merged loop structure); "
               "SubDevice::new from its register reads to the record (fragment): alias from 0x0012, DC capability from the feature flags at 0x0008, ports from the DL status at "
               "0x0110 in EtherCAT order 0,3,1,2 - all read from the device's own station address; ring position and address as given; mailbox counter initialised to 1",
-        note="PARTIAL claim. count_subdevices (= the working counter of one broadcast read; unit state_wait) is under contract. reset_subdevices is extracted WHOLE (unit reset_seq: INIT + error acknowledge broadcast, all 16 FMMU and all 16 SM records blanked with their record length, the eight DC registers with their widths, control-loop parameters 3 and 1; the ORDER of these writes is not decided). NOT decided: the front part of SubDevice::new (wait for INIT, EEPROM ownership, identity and name: see C12), "
+        note="PARTIAL claim. count_subdevices (= the working counter of one broadcast read; unit state_wait) is under contract. reset_subdevices is extracted WHOLE (unit reset_seq: INIT + error acknowledge broadcast, all 16 FMMU and all 16 SM records blanked with their record length, the eight DC registers with their widths, control-loop parameters 3 and 1; the ORDER of these writes is not decided). The front part of SubDevice::new (device seen in INIT, EEPROM ownership, identity read from THAT device) is the fragment subdevice_new_head of unit state_wait. NOT decided: the name lookup between the two fragments (see C12), "
              "the group filter / FnvIndexMap part ('every device in exactly one group'; closures and dyn), PRE-OP arrival (device behaviour), the n == 0 early "
              "return (outside the fragments). A device model would be a different technique family.",
     ),
